@@ -16,6 +16,11 @@ def pyClip (x lo hi : Rat) : Rat := min (max x lo) hi
 def pyFloorDiv (a b : Int) : Int := Int.fdiv a b
 def pyMod (a b : Int) : Int := Int.fmod a b
 
+/-- Python `range(n)` as a list of ints (empty for `n ≤ 0`). -/
+def pyRange (n : Int) : List Int := (List.range n.toNat).map Int.ofNat
+/-- Python sequence repetition `xs * n` (empty for `n ≤ 0`). -/
+def pyRepeat {α : Type} (xs : List α) (n : Int) : List α := (List.replicate n.toNat xs).flatten
+
 def pyIntF (x : Float) : Int :=
   let t := if x < 0 then x.ceil else x.floor
   if t < 0 then -((-t).toUInt64.toNat : Int) else (t.toUInt64.toNat : Int)
